@@ -115,7 +115,7 @@ SymSet.sym_contains = _contains
 
 class CheckDirStructure(Contract):
     target = f"{IE}._check_directory_structure_validity"
-    properties = ("C16",)
+    properties = ("C16", "C17")
     ctx_class = PathCtx
 
     def loops(self, case):
@@ -360,7 +360,7 @@ class UniqCtx(PathCtx):
 
 class CheckPathFunctionUnique(Contract):
     target = f"{IE}._check_path_function_unique"
-    properties = ("C16",)
+    properties = ("C16", "C17")
     ctx_class = UniqCtx
 
     def loops(self, case):
@@ -388,7 +388,7 @@ class CheckPathFunctionUnique(Contract):
 
 class MakePathFunction(Contract):
     target = f"{IE}._make_path_function"
-    properties = ("C16",)
+    properties = ("C16", "C17")
 
     def cases(self):
         return [{"path": p} for p in ("None", "False", "str", "other")]
